@@ -462,6 +462,128 @@ def d_timeseries(ctx, inputs, paths, ref, opt):
                 return
 
 
+def d_cond(ctx, inputs, paths, ref, opt):
+    edges = [0.0, 1.0, 2.0, 3.0, 10.0]
+    r, fig, out = render(paths + ["-m", "cond", "-r", "0,1,2,3,10"])
+    if r.kind != "ok":
+        return ctx.fail("cond:%s:%s" % (r.kind, r.site or "rejected"))
+    lbl = lines_by_label(fig)
+    for i, ai in enumerate(inputs):
+        pairs = ref.request(["obs", "fcst"], i, "no", 0)
+        for tag, key, other in (("(F|O)", 0, 1), ("(O|F)", 1, 0)):
+            ls = one_line(ctx, lbl, "%s %s" % (ai.name, tag), "cond")
+            if not ls:
+                continue
+            x, y = ls[0][0], ls[0][1]
+            cond_axis, mean_axis = (x, y) if tag == "(F|O)" else (y, x)
+            for j in range(4):
+                sel = [p for p in pairs if edges[j] < p[key] <= edges[j + 1]]
+                if not sel:
+                    ctx.require(math.isnan(float(mean_axis[j])), "cond:empty-bin-not-missing", label=tag, bin=j, actual=float(mean_axis[j]))
+                    continue
+                e = MP._mean([p[other] for p in sel])
+                ctx.require(abs(float(mean_axis[j]) - e) < 1e-9, "cond:conditional-mean", label="%s %s" % (ai.name, tag), bin=j, expected=e, actual=float(mean_axis[j]))
+                ctx.require(edges[j] < float(cond_axis[j]) <= edges[j + 1], "cond:conditioning-value-outside-its-bin", label=tag, bin=j, actual=float(cond_axis[j]))
+
+
+def d_discrimination(ctx, inputs, paths, ref, opt):
+    thr, bin_type = opt
+    r, fig, out = render(paths + ["-m", "discrimination", "-r", gen.fmt_num(thr), "-b", bin_type])
+    if r.kind != "ok":
+        return ctx.fail("discrimination:%s:%s" % (r.kind, r.site or "rejected"))
+    bars = rects(fig.axes[0])
+    import matplotlib.container
+    conts = [c for c in fig.axes[0].containers if isinstance(c, matplotlib.container.BarContainer)]
+    bylabel = {str(c.get_label()): [p.get_height() for p in c.patches] for c in conts}
+    for i, ai in enumerate(inputs):
+        rows = event_rows(ref, i, thr, bin_type)
+        for obs_value, suffix in ((1.0, " observed"), (0.0, " not observed")):
+            got = bylabel.get(ai.name + suffix)
+            if not ctx.require(got is not None and len(got) == 10, "discrimination:series-missing", label=ai.name + suffix, labels=sorted(bylabel)):
+                continue
+            sel = [p for o, p in rows if o == obs_value]
+            if not sel:
+                continue
+            exp_incl = [100.0 * sum(1 for p in sel if MP.prob_bin(round(p, 9)) == j) / len(sel) for j in range(10)]
+            ok = all(abs(a - b) < 1e-6 for a, b in zip(exp_incl, got))
+            if not ok:
+                exp_excl = [100.0 * sum(1 for p in sel if p < 1.0 and MP.prob_bin(round(p, 9)) == j) / len(sel) for j in range(10)]
+                if all(abs(a - b) < 1e-6 for a, b in zip(exp_excl, got)) and any(p == 1.0 for p in sel):
+                    ctx.fail("discrimination:case-not-in-exactly-one-bin", note="cases with probability exactly 1 are in no bin", label=ai.name + suffix, total=sum(got))
+                else:
+                    ctx.fail("discrimination:bar-heights", label=ai.name + suffix, expected=exp_incl, actual=got)
+
+
+def d_murphy(ctx, inputs, paths, ref, opt):
+    thr = opt
+    r, fig, out = render(paths + ["-m", "murphy", "-r", gen.fmt_num(thr)])
+    if r.kind != "ok":
+        return ctx.fail("murphy:%s:%s" % (r.kind, r.site or "rejected"))
+    lbl = lines_by_label(fig)
+    thetas = [k / 20.0 for k in range(21)]
+    for i, ai in enumerate(inputs):
+        ls = one_line(ctx, lbl, ai.name, "murphy")
+        if not ls:
+            continue
+        rows = event_rows(ref, i, thr, "above")
+        n = float(len(rows))
+        exp = []
+        for th in thetas:
+            s = 2 * th * sum(1 for o, p in rows if p > th and o == 0) / n + 2 * (1 - th) * sum(1 for o, p in rows if p < th and o == 1) / n + \
+                2 * th * (1 - th) * sum(1 for o, p in rows if p == th) / n
+            exp.append(s)
+        ctx.require(same_points(list(zip(thetas, exp)), list(zip(ls[0][0], ls[0][1])), tol=1e-5), "murphy:elementary-scores", input=ai.name, expected=exp[:6], actual=ls[0][1].tolist()[:6])
+
+
+def d_change(ctx, inputs, paths, ref, opt):
+    edges = [-10.0, -1.0, 0.0, 1.0, 10.0]
+    r, fig, out = render(paths + ["-m", "change", "-r", "-10,-1,0,1,10"])
+    if r.kind != "ok":
+        return ctx.fail("change:%s:%s" % (r.kind, r.site or "rejected"))
+    lbl = lines_by_label(fig)
+    for i, ai in enumerate(inputs):
+        ls = one_line(ctx, lbl, ai.name, "change")
+        if not ls:
+            continue
+        allv = ref.request_all(["obs", "fcst"], i)
+        items = []
+        for ti in range(1, len(ref.T)):
+            for l in ref.L:
+                for sloc in ref.S:
+                    a, b = allv[(ref.T[ti - 1], l, sloc)], allv[(ref.T[ti], l, sloc)]
+                    if a is None or b is None:
+                        continue
+                    items.append((b[0] - a[0], abs(b[0] - b[1])))
+        exp = []
+        for j in range(4):
+            sel = [it for it in items if edges[j] < it[0] <= edges[j + 1]]
+            exp.append((MP._mean([c for c, e in sel]), MP._mean([e for c, e in sel])) if sel else (float("nan"), float("nan")))
+        ctx.require(same_points(exp, list(zip(ls[0][0], ls[0][1]))), "change:curve", input=ai.name, expected=exp, actual=list(zip(ls[0][0].tolist(), ls[0][1].tolist())))
+
+
+def d_against(ctx, inputs, paths, ref, opt):
+    if len(inputs) != 2:
+        return
+    r, fig, out = render(paths + ["-m", "against"])
+    if r.kind != "ok":
+        return ctx.fail("against:%s:%s" % (r.kind, r.site or "rejected"))
+    ax = fig.axes[0]
+    crosses = [l for l in ax.get_lines() if l.get_marker() == "x"]
+    squares = [l for l in ax.get_lines() if l.get_marker() == "s"]
+    f0 = ref.request_all(["fcst"], 0)
+    f1 = ref.request_all(["fcst"], 1)
+    exp_all = [(f0[c][0], f1[c][0]) for c in ref.cases() if f0[c] is not None and f1[c] is not None]
+    o0 = ref.request_all(["obs", "fcst"], 0)
+    o1 = ref.request_all(["obs", "fcst"], 1)
+    exp_obs = [(o0[c][1], o1[c][1]) for c in ref.cases() if o0[c] is not None and o1[c] is not None]
+    if ctx.require(len(crosses) == 1 and len(squares) == 1, "against:series-missing", crosses=len(crosses), squares=len(squares)):
+        ctx.require(same_points(exp_all, list(zip(crosses[0].get_xdata(), crosses[0].get_ydata())), ordered=False), "against:all-forecast-pairs", expected=len(exp_all),
+                    actual=len(crosses[0].get_xdata()))
+        ctx.require(same_points(exp_obs, list(zip(squares[0].get_xdata(), squares[0].get_ydata())), ordered=False), "against:pairs-with-observations", expected=len(exp_obs),
+                    actual=len(squares[0].get_xdata()))
+    ctx.require(ax.get_xlabel() == inputs[0].name and ax.get_ylabel() == inputs[1].name, "against:axes-order", xlabel=ax.get_xlabel(), ylabel=ax.get_ylabel())
+
+
 DIAGRAMS = {
     "standard": (d_standard, [("mae", "leadtime"), ("mae", "location"), ("corr", "time"), ("ets", "leadtime"), ("bs", "leadtime"), ("rmse", "no"), ("bias", "month"), ("mae", "leadtimeday")]),
     "obsfcst": (d_obsfcst, ["leadtime", "time", "location", ("leadtime", (0.1, 0.9)), ("location", (0.9, 0.5, 0.1))]),
@@ -476,6 +598,11 @@ DIAGRAMS = {
     "bsdecomp": (d_bsdecomp, [None]),
     "map": (d_map, ["mae", "bias"]),
     "timeseries": (d_timeseries, [None]),
+    "cond": (d_cond, [None]),
+    "discrimination": (d_discrimination, [(2.0, "above"), (1.0, "below")]),
+    "murphy": (d_murphy, [2.0, 1.0]),
+    "change": (d_change, [None]),
+    "against": (d_against, [None]),
 }
 
 
